@@ -755,4 +755,494 @@ theorem step_done (s : St) (e : Ev) :
             · exact Or.inl h
             · exact Or.inr ⟨h.1, h.2.1, h.2.2.1, h.2.2.2.trans hc⟩
 
+theorem handleStream_session (s : St) (v i : Bool) : (handleStream s v i).1.sessionStarted = s.sessionStarted := by
+  unfold handleStream startNonSaslAuth; dsimp only; cnt_crush
+
+/-! ### session flag versus `connected` / `disconnected` signals -/
+
+@[simp] theorem nD_closeSession (s : St) : nD (closeSession s).2 = 1 := by unfold closeSession; simp
+@[simp] theorem nD_reject (s : St) : nD (reject s).2 = nD (disconnectFromHost s).2 := by unfold reject; simp
+@[simp] theorem nD_failAuth (s : St) : nD (failAuth s).2 = nD (disconnectFromHost s).2 := by unfold failAuth; simp
+@[simp] theorem nD_handleStart (s : St) : nD (handleStart s).2 = 0 := by unfold handleStart; simp
+@[simp] theorem nD_startNonSaslAuth (s : St) : nD (startNonSaslAuth s).2 = 0 := by unfold startNonSaslAuth; simp
+@[simp] theorem nD_handleStream (s : St) (v i : Bool) : nD (handleStream s v i).2 = 0 := by
+  unfold handleStream; dsimp only; cnt_crush
+@[simp] theorem nD_startBind (s : St) : nD (startBind s).2 = 0 := by unfold startBind; simp
+@[simp] theorem nD_startSmEnable (s : St) : nD (startSmEnable s).2 = 0 := by unfold startSmEnable; simp
+@[simp] theorem nD_startSmResume (s : St) : nD (startSmResume s).2 = 0 := by unfold startSmResume; simp
+@[simp] theorem nD_onSmEnabled (s : St) (b : Bool) : nD (onSmEnabled s b).2 = 0 := by unfold onSmEnabled; simp
+@[simp] theorem nD_onSmResumed (s : St) : nD (onSmResumed s).2 = 0 := by unfold onSmResumed; simp
+@[simp] theorem nD_openSession (s : St) : nD (openSession s).2 = 0 := (openSession_counts s).2
+@[simp] theorem nC_openSession (s : St) : nC (openSession s).2 = 1 := (openSession_counts s).1
+
+/-- `b` is the session flag before; afterwards: no `disconnected` and (unless `connected` was reported) the flag is unchanged,
+or exactly one `disconnected`, no `connected`, and the flag is cleared -/
+def EffD (b : Bool) (r : R) : Prop :=
+  (nD r.2 = 0 ∧ (nC r.2 = 0 → r.1.sessionStarted = b)) ∨
+  (nD r.2 = 1 ∧ nC r.2 = 0 ∧ r.1.sessionStarted = false ∧ r.1.conn ≠ .connected)
+
+theorem effD_quiet {b : Bool} {r : R} (hD : nD r.2 = 0) (hs : r.1.sessionStarted = b) : EffD b r :=
+  Or.inl ⟨hD, fun _ => hs⟩
+
+theorem closeSession_effD (s : St) (hc : s.conn ≠ .connected) : EffD s.sessionStarted (closeSession s) :=
+  Or.inr ⟨by simp, by simp, rfl, hc⟩
+
+theorem onSocketDisconnected_effD (s : St) (hc : s.conn = .disconnected) :
+    EffD s.sessionStarted (onSocketDisconnected s) := by
+  unfold onSocketDisconnected
+  dsimp only
+  split
+  · exact effD_quiet (by simp) rfl
+  · exact closeSession_effD { s with authenticated := false } (by simp [hc])
+
+theorem socketClose_effD (s : St) : EffD s.sessionStarted (socketClose s) := by
+  unfold socketClose
+  split
+  · rcases onSocketDisconnected_effD { s with conn := .disconnected } rfl with h | h
+    · exact Or.inl ⟨by simpa using h.1, fun hc => h.2 (by simpa using hc)⟩
+    · exact Or.inr ⟨by simpa using h.1, by simpa using h.2.1, h.2.2⟩
+  · exact effD_quiet (by simp) rfl
+
+theorem disconnectFromHost_effD (s : St) : EffD s.sessionStarted (disconnectFromHost s) := by
+  unfold disconnectFromHost
+  exact socketClose_effD { s with canResume := false }
+
+theorem effD_prepend_error {b : Bool} {r : R} (h : EffD b r) : EffD b (r.1, .sig .error :: r.2) := by
+  rcases h with h | h
+  · exact Or.inl ⟨by simpa using h.1, fun hc => h.2 (by simpa using hc)⟩
+  · exact Or.inr ⟨by simpa using h.1, by simpa using h.2.1, h.2.2⟩
+
+theorem reject_effD (s : St) : EffD s.sessionStarted (reject s) := by
+  unfold reject
+  exact effD_prepend_error (disconnectFromHost_effD s)
+
+theorem failAuth_effD (s : St) : EffD s.sessionStarted (failAuth s) := by
+  unfold failAuth
+  rcases disconnectFromHost_effD s with h | h
+  · exact Or.inl ⟨by simpa using h.1, fun hc => h.2 (by simpa using hc)⟩
+  · exact Or.inr ⟨by simpa using h.1, by simpa using h.2.1, h.2.2.1, h.2.2.2⟩
+
+theorem openSession_effD (b : Bool) (s : St) : EffD b (openSession s) :=
+  Or.inl ⟨by simp, fun hc => by simp at hc⟩
+
+theorem sendStanza_effD (s : St) (k : Kind) : EffD s.sessionStarted (sendStanza s k) :=
+  effD_quiet (by simp) (sendStanza_core s k).2.1
+
+theorem startSasl_effD (s : St) (m : Mech) : EffD s.sessionStarted (startSasl s m) := by
+  unfold startSasl
+  split
+  · exact effD_quiet (by simp) rfl
+  · exact effD_prepend_error (disconnectFromHost_effD { s with listener := .saslDead })
+
+theorem startSasl2_effD (s : St) (z : S2Feat) : EffD s.sessionStarted (startSasl2 s z) := by
+  unfold startSasl2
+  dsimp only
+  have h1 : (if z.bind2 = true then { s with bind2InactiveSet := s.cfg.inactive && z.bind2Ext } else s).sessionStarted =
+      s.sessionStarted := by split <;> rfl
+  generalize (if z.bind2 = true then { s with bind2InactiveSet := s.cfg.inactive && z.bind2Ext } else s) = s1 at h1
+  split
+  · exact effD_quiet (by simp) h1
+  · rw [← h1]
+    exact effD_prepend_error (disconnectFromHost_effD
+      { ({ s1 with tokenRequested := (z.fast && s1.cfg.fastUa) && !s1.hasToken } : St) with listener := .sasl2Dead })
+
+theorem handleStarttls_effD (s : St) (f : Features) : ∀ r, handleStarttls s f = some r → EffD s.sessionStarted r := by
+  intro r hr
+  unfold handleStarttls at hr
+  repeat' split at hr
+  all_goals first
+    | (cases hr; done)
+    | (cases hr; exact disconnectFromHost_effD s)
+    | (cases hr; exact effD_quiet (by simp) rfl)
+
+theorem handleFeatures_effD (s : St) (f : Features) : EffD s.sessionStarted (handleFeatures s f) := by
+  unfold handleFeatures
+  split
+  · rename_i r hr; exact handleStarttls_effD s f r hr
+  · split
+    · exact startSasl2_effD s _
+    · split
+      · exact startSasl_effD s _
+      · split
+        · exact effD_quiet (by simp) rfl
+        · dsimp only
+          split
+          · exact effD_quiet (by simp) rfl
+          · split
+            · exact effD_quiet (by simp) rfl
+            · split
+              · exact effD_quiet (by simp) rfl
+              · exact openSession_effD _ _
+
+theorem idleHandle_effD (s : St) (e : El) : EffD s.sessionStarted (idleHandle s e) := by
+  unfold idleHandle
+  split
+  · exact handleFeatures_effD s _
+  · exact socketClose_effD { s with redirect := true }
+  · exact effD_quiet (by simp) rfl
+  · exact sendStanza_effD s _
+  · exact sendStanza_effD s _
+  · split <;> exact effD_quiet (by simp) rfl
+  · exact effD_quiet (by simp) rfl
+  · exact effD_quiet (by simp) rfl
+  · exact effD_quiet (by simp) rfl
+  · exact reject_effD s
+
+theorem starttlsHandle_effD (s : St) (e : El) : EffD s.sessionStarted (starttlsHandle s e) := by
+  unfold starttlsHandle
+  split
+  · exact effD_quiet (by simp) rfl
+  · exact effD_prepend_error (onSocketDisconnected_effD { s with conn := .disconnected, listener := .idle } rfl)
+  · exact reject_effD s
+
+theorem effD_relisten {b : Bool} {r : R} (l : Listener) (h : EffD b r) : EffD b ({ r.1 with listener := l }, r.2) := h
+
+theorem nonSaslHandle_effD (s : St) (e : El) : EffD s.sessionStarted (nonSaslHandle s e) := by
+  unfold nonSaslHandle
+  split
+  · split
+    · exact effD_quiet (by simp) rfl
+    · exact effD_relisten .idle (disconnectFromHost_effD s)
+  · exact effD_relisten .idle (disconnectFromHost_effD s)
+  · exact reject_effD s
+
+theorem saslHandle_effD (s : St) (m : Used) (fr : Bool) (e : El) : EffD s.sessionStarted (saslHandle s m fr e) := by
+  unfold saslHandle
+  split
+  · split
+    · exact effD_quiet (by simp) rfl
+    · exact failAuth_effD s
+  · split
+    · exact effD_quiet (by simp) rfl
+    · exact failAuth_effD s
+  · exact failAuth_effD s
+  · exact reject_effD s
+
+theorem sasl2Handle_effD (s : St) (m : Used) (fr : Bool) (e : El) : EffD s.sessionStarted (sasl2Handle s m fr e) := by
+  unfold sasl2Handle
+  split
+  · split
+    · exact effD_quiet (by simp) rfl
+    · exact failAuth_effD s
+  · rename_i b r tok proof
+    split
+    case isFalse => exact failAuth_effD s
+    dsimp only
+    have c1 : ({ s with authenticated := true, bind2Bound := decide (b ≠ S2Bound.none),
+                          hasToken := s.hasToken || (tok && (s.tokenRequested || s.hasToken)) } : St).sessionStarted =
+        s.sessionStarted := rfl
+    generalize ({ s with authenticated := true, bind2Bound := decide (b ≠ S2Bound.none),
+                          hasToken := s.hasToken || (tok && (s.tokenRequested || s.hasToken)) } : St) = s1 at c1
+    have c2 : (if r = .resumed then onSmResumed s1 else (s1, [])).1.sessionStarted = s.sessionStarted ∧
+        nC (if r = .resumed then onSmResumed s1 else (s1, [])).2 = 0 ∧
+        nD (if r = .resumed then onSmResumed s1 else (s1, [])).2 = 0 := by
+      split
+      · exact ⟨c1, by simp, by simp⟩
+      · exact ⟨c1, by simp, by simp⟩
+    generalize (if r = .resumed then onSmResumed s1 else (s1, [])) = r2 at c2
+    have c3 : (if b = .smEnabled then onSmEnabled r2.1 true else (r2.1, [])).1.sessionStarted = s.sessionStarted ∧
+        nC (if b = .smEnabled then onSmEnabled r2.1 true else (r2.1, [])).2 = 0 ∧
+        nD (if b = .smEnabled then onSmEnabled r2.1 true else (r2.1, [])).2 = 0 := by
+      split
+      · exact ⟨c2.1, by simp, by simp⟩
+      · exact ⟨c2.1, by simp, by simp⟩
+    generalize (if b = .smEnabled then onSmEnabled r2.1 true else (r2.1, [])) = r3 at c3
+    split
+    · exact Or.inl ⟨by simp [c2.2.2, c3.2.2], fun hc => by simp [c2.2.1, c3.2.1] at hc⟩
+    · exact effD_quiet (by simp [c2.2.2, c3.2.2]) c3.1
+  · exact failAuth_effD s
+  · exact effD_quiet (by simp) rfl
+  · exact reject_effD s
+
+theorem smResumeHandle_effD (s : St) (e : El) : EffD s.sessionStarted (smResumeHandle s e) := by
+  unfold smResumeHandle
+  split
+  · exact Or.inl ⟨by simp, fun hc => by simp at hc⟩
+  · split
+    · exact effD_quiet (by simp) rfl
+    · exact Or.inl ⟨by simp, fun hc => by simp at hc⟩
+  · exact reject_effD s
+
+theorem smEnableHandle_effD (s : St) (e : El) : EffD s.sessionStarted (smEnableHandle s e) := by
+  unfold smEnableHandle
+  split
+  · exact Or.inl ⟨by simp, fun hc => by simp at hc⟩
+  · exact Or.inl ⟨by simp, fun hc => by simp at hc⟩
+  · exact reject_effD s
+
+theorem bindHandle_effD (s : St) (e : El) : EffD s.sessionStarted (bindHandle s e) := by
+  unfold bindHandle
+  split
+  · split
+    · exact effD_quiet (by simp) rfl
+    · exact Or.inl ⟨by simp, fun hc => by simp at hc⟩
+  · exact failAuth_effD s
+  · exact failAuth_effD s
+  · exact reject_effD s
+
+theorem dispatch_effD (s : St) (e : El) : EffD s.sessionStarted (dispatch s e) := by
+  unfold dispatch
+  split
+  · exact idleHandle_effD s e
+  · exact starttlsHandle_effD s e
+  · exact nonSaslHandle_effD s e
+  · exact saslHandle_effD s _ _ e
+  · exact reject_effD s
+  · exact sasl2Handle_effD s _ _ e
+  · exact reject_effD s
+  · exact smResumeHandle_effD s e
+  · exact smEnableHandle_effD s e
+  · exact bindHandle_effD s e
+
+theorem step_effD (s : St) (e : Ev) : EffD s.sessionStarted (step s e) := by
+  cases e with
+  | connectToServer => simp only [step]; split <;> exact effD_quiet (by simp) rfl
+  | socketConnected => simp only [step]; split <;> exact effD_quiet (by simp) rfl
+  | socketError => exact effD_quiet (by simp [step]) rfl
+  | socketDisconnected =>
+    simp only [step]
+    split
+    · exact onSocketDisconnected_effD { s with conn := .disconnected } rfl
+    · split <;> exact effD_quiet (by simp) rfl
+  | sendIq =>
+    simp only [step, sendIq]
+    have h := (sendStanza_core s (.iqRequest false)).2.1
+    split
+    · exact effD_quiet (by simp) h
+    · exact effD_quiet (by simp) h
+  | recv el =>
+    simp only [step]
+    unfold recv
+    split
+    · exact effD_quiet (by simp) rfl
+    · split
+      · exact effD_quiet (by simp) (by simp [handleStream_session])
+      · split
+        · exact effD_quiet (by simp) rfl
+        · split
+          · exact disconnectFromHost_effD s
+          · exact dispatch_effD s el
+
+/-! ### at most one `connected` between two `disconnected` -/
+
+/-- **Conformance hypothesis**: the server sends no stream features while a session is established -/
+def noFeaturesInSession (s : St) : Ev → Prop
+  | .recv (.features _) => s.sessionStarted = false
+  | _ => True
+
+/-- while a session is flagged, the listener is the idle one (or the XEP-0078 one, which can never open a session) -/
+def JP (s : St) : Prop := s.sessionStarted = true → (s.listener = .idle ∨ s.listener = .nonSaslFields)
+
+theorem onSocketDisconnected_listener (s : St) : (onSocketDisconnected s).1.listener = s.listener := by
+  unfold onSocketDisconnected closeSession; dsimp only; split <;> rfl
+theorem socketClose_listener (s : St) : (socketClose s).1.listener = s.listener := by
+  unfold socketClose; split
+  · simp [onSocketDisconnected_listener]
+  · rfl
+theorem disconnectFromHost_listener (s : St) : (disconnectFromHost s).1.listener = s.listener := by
+  unfold disconnectFromHost; simp [socketClose_listener]
+theorem reject_listener (s : St) : (reject s).1.listener = s.listener := by
+  unfold reject; simp [disconnectFromHost_listener]
+theorem handleStream_listener (s : St) (v i : Bool) :
+    (handleStream s v i).1.listener = s.listener ∨ (handleStream s v i).1.listener = .nonSaslFields := by
+  unfold handleStream startNonSaslAuth; dsimp only; cnt_crush
+
+/-- the idle listener, anything but features: listener stays idle, nothing is opened -/
+theorem idleHandle_nf (s : St) (e : El) (hl : s.listener = .idle) (hnf : ∀ f, e ≠ .features f) :
+    (idleHandle s e).1.listener = .idle ∧ nC (idleHandle s e).2 = 0 := by
+  unfold idleHandle
+  split
+  · rename_i f; exact absurd rfl (hnf f)
+  · exact ⟨by simp [socketClose_listener, hl], by simp⟩
+  · exact ⟨hl, by simp⟩
+  · exact ⟨by rw [(sendStanza_core s _).1.listener]; exact hl, by simp⟩
+  · exact ⟨by rw [(sendStanza_core s _).1.listener]; exact hl, by simp⟩
+  · split
+    · exact ⟨hl, by simp⟩
+    · exact ⟨hl, by simp⟩
+  · exact ⟨hl, by simp⟩
+  · exact ⟨hl, by simp⟩
+  · exact ⟨hl, by simp⟩
+  · exact ⟨by rw [reject_listener]; exact hl, by simp⟩
+
+theorem nonSaslHandle_j (s : St) (e : El) (hl : s.listener = .nonSaslFields) :
+    ((nonSaslHandle s e).1.listener = .idle ∨ (nonSaslHandle s e).1.listener = .nonSaslFields) ∧
+    nC (nonSaslHandle s e).2 = 0 := by
+  unfold nonSaslHandle
+  split
+  · split
+    · exact ⟨Or.inl rfl, by simp⟩
+    · exact ⟨Or.inl rfl, by simp⟩
+  · exact ⟨Or.inl rfl, by simp⟩
+  · exact ⟨Or.inr (by rw [reject_listener]; exact hl), by simp⟩
+
+theorem step_j (s : St) (e : Ev) (hj : JP s) (hconf : noFeaturesInSession s e) :
+    JP (step s e).1 ∧ (nC (step s e).2 = 1 → s.sessionStarted = false) := by
+  cases hs : s.sessionStarted with
+  | false =>
+    refine ⟨?_, fun _ => rfl⟩
+    intro hpost
+    rcases step_done s e with hd | hd
+    · rcases step_effD s e with he | he
+      · have := he.2 hd
+        rw [hs] at this
+        rw [this] at hpost; cases hpost
+      · rw [he.2.2.1] at hpost; cases hpost
+    · exact Or.inl hd.2.1
+  | true =>
+    have hl := hj hs
+    have key : ((step s e).1.sessionStarted = true → ((step s e).1.listener = .idle ∨ (step s e).1.listener = .nonSaslFields)) ∧
+        nC (step s e).2 = 0 := by
+      cases e with
+      | connectToServer => simp only [step]; split <;> exact ⟨fun _ => hl, by simp⟩
+      | socketConnected => simp only [step]; split
+                           · exact ⟨fun _ => Or.inl rfl, by simp⟩
+                           · exact ⟨fun _ => hl, by simp⟩
+      | socketError => exact ⟨fun _ => hl, by simp [step]⟩
+      | socketDisconnected =>
+        simp only [step]
+        split
+        · exact ⟨fun _ => by rw [onSocketDisconnected_listener]; exact hl, by simp⟩
+        · split <;> exact ⟨fun _ => hl, by simp⟩
+      | sendIq =>
+        simp only [step, sendIq]
+        have hc := (sendStanza_core s (.iqRequest false)).1.listener
+        split
+        · exact ⟨fun _ => by rw [hc]; exact hl, by simp⟩
+        · exact ⟨fun _ => by show (sendStanza s (.iqRequest false)).1.listener = _ ∨ _; rw [hc]; exact hl, by simp⟩
+      | recv el =>
+        simp only [step]
+        unfold recv
+        split
+        · exact ⟨fun _ => hl, by simp⟩
+        · split
+          · rename_i v i
+            refine ⟨fun _ => ?_, by simp⟩
+            rcases handleStream_listener { s with headerSeen := true } v i with h | h
+            · rw [h]; exact hl
+            · exact Or.inr h
+          · split
+            · exact ⟨fun _ => hl, by simp⟩
+            · split
+              · exact ⟨fun _ => by rw [disconnectFromHost_listener]; exact hl, by simp⟩
+              · rename_i hnh _ hns
+                unfold dispatch
+                rcases hl with hl | hl
+                · rw [hl]
+                  have hnf : ∀ f, el ≠ .features f := by
+                    intro f hf
+                    subst hf
+                    have : s.sessionStarted = false := hconf
+                    rw [hs] at this; cases this
+                  have := idleHandle_nf s el hl hnf
+                  exact ⟨fun _ => Or.inl this.1, this.2⟩
+                · rw [hl]
+                  have := nonSaslHandle_j s el hl
+                  exact ⟨fun _ => this.1, this.2⟩
+    exact ⟨key.1, fun h1 => by rw [key.2] at h1; cases h1⟩
+
+/-- scanning a trace: `open` tells whether a session is currently reported; `false` as soon as `connected` is reported while
+a session is already open -/
+def alt : Bool → List Out → Bool
+  | _, [] => true
+  | o, .sig .connected :: r => !o && alt true r
+  | _, .sig .disconnected :: r => alt false r
+  | o, _ :: r => alt o r
+
+def altEnd : Bool → List Out → Bool
+  | o, [] => o
+  | _, .sig .connected :: r => altEnd true r
+  | _, .sig .disconnected :: r => altEnd false r
+  | o, _ :: r => altEnd o r
+
+theorem alt_append (o : Bool) (a b : List Out) : alt o (a ++ b) = (alt o a && alt (altEnd o a) b) := by
+  induction a generalizing o with
+  | nil => simp [alt, altEnd]
+  | cons x xs ih =>
+    cases x with
+    | sent k l => simp [alt, altEnd, ih]
+    | sig g => cases g <;> simp [alt, altEnd, ih, Bool.and_assoc]
+
+theorem altEnd_append (o : Bool) (a b : List Out) : altEnd o (a ++ b) = altEnd (altEnd o a) b := by
+  induction a generalizing o with
+  | nil => simp [altEnd]
+  | cons x xs ih =>
+    cases x with
+    | sent k l => simp [altEnd, ih]
+    | sig g => cases g <;> simp [altEnd, ih]
+
+theorem alt_noC (o : Bool) (os : List Out) (hC : nC os = 0) :
+    alt o os = true ∧ altEnd o os = (if nD os = 0 then o else false) := by
+  induction os generalizing o with
+  | nil => simp [alt, altEnd]
+  | cons x xs ih =>
+    cases x with
+    | sent k l => simp at hC; simpa [alt, altEnd] using ih o hC
+    | sig g =>
+      cases g with
+      | connected => simp at hC
+      | disconnected =>
+        simp at hC
+        have := ih false hC
+        simp only [alt, altEnd, nD_cons_disconnected]
+        refine ⟨this.1, ?_⟩
+        rw [this.2]
+        split <;> simp
+      | error => simp at hC; simpa [alt, altEnd] using ih o hC
+      | iqDone b => simp at hC; simpa [alt, altEnd] using ih o hC
+
+theorem alt_oneC (os : List Out) (hC : nC os = 1) (hD : nD os = 0) :
+    alt false os = true ∧ altEnd false os = true := by
+  induction os with
+  | nil => simp at hC
+  | cons x xs ih =>
+    cases x with
+    | sent k l => simp at hC hD; simpa [alt, altEnd] using ih hC hD
+    | sig g =>
+      cases g with
+      | connected =>
+        simp at hC hD
+        have := alt_noC true xs hC
+        simp only [alt, altEnd, Bool.not_false, Bool.true_and]
+        rw [this.2, hD]
+        exact ⟨this.1, rfl⟩
+      | disconnected => simp at hD
+      | error => simp at hC hD; simpa [alt, altEnd] using ih hC hD
+      | iqDone b => simp at hC hD; simpa [alt, altEnd] using ih hC hD
+
+/-- one step keeps the trace well-bracketed and the scan state equal to the session flag -/
+theorem step_alt (s : St) (e : Ev) (hj : JP s) (hconf : noFeaturesInSession s e) :
+    alt s.sessionStarted (step s e).2 = true ∧ altEnd s.sessionStarted (step s e).2 = (step s e).1.sessionStarted := by
+  have hJ := step_j s e hj hconf
+  rcases step_done s e with hd | hd
+  · have a := alt_noC s.sessionStarted (step s e).2 hd
+    refine ⟨a.1, ?_⟩
+    rw [a.2]
+    rcases step_effD s e with he | he
+    · rw [he.1, he.2 hd]; rfl
+    · rw [he.1, he.2.2.1]; rfl
+  · have hs := hJ.2 hd.1
+    rcases step_effD s e with he | he
+    · have a := alt_oneC (step s e).2 hd.1 he.1
+      rw [hs]
+      exact ⟨a.1, by rw [a.2, hd.2.2.1]⟩
+    · rw [he.2.1] at hd; cases hd.1
+
+theorem run_alt (evs : List Ev) (s : St) (hj : JP s) (hconf : Along noFeaturesInSession s evs) :
+    alt s.sessionStarted (run s evs).2 = true := by
+  induction evs generalizing s with
+  | nil => rfl
+  | cons e es ih =>
+    have h1 := step_alt s e hj hconf.1
+    have hj' := (step_j s e hj hconf.1).1
+    simp only [run, alt_append, h1.1, h1.2, Bool.true_and]
+    exact ih _ hj' hconf.2
+
+/-- `disconnected` is only ever reported by a step that leaves the socket not connected -/
+theorem step_disconnected_means_socket_gone (s : St) (e : Ev) (h : nD (step s e).2 ≠ 0) :
+    (step s e).1.conn ≠ .connected ∧ (step s e).1.sessionStarted = false := by
+  rcases step_effD s e with he | he
+  · exact absurd he.1 h
+  · exact ⟨he.2.2.2, he.2.2.1⟩
+
 end Qx.C10
